@@ -31,7 +31,7 @@ from .. import tlc
 
 LANGS = ("c", "cpp", "py", "html")
 MODE_LANGS = {"prefix": ("c", "cpp"), "suffix": ("py",), "none": ("html",)}
-SPELLINGS = ("rel", "dot", "abs", "slash", "abs_slash", "dotdot", "nested", "dotdot_abs")
+SPELLINGS = ("rel", "dot", "abs", "slash", "abs_slash", "dotdot", "nested", "dotdot_abs", "symlink", "symlink_abs")
 EXTS = {"c": (None, ".hh", ".gen.h"), "cpp": (None, ".h", ".x.hpp"), "py": (None, ".pyi"), "html": (None, ".htm")}
 STEMS = (None, "nsinfo", "_")
 BODY = {
@@ -115,13 +115,18 @@ def spell(sand, how):
         return str(sand) + "/sub/../out", out, [sand / "sub"]
     if how == "nested":
         return "x/y/out", sand / "x" / "y" / "out", []
+    if how == "symlink":  # lnk -> real (made by the caller of spell)
+        return "lnk/out", sand / "real" / "out", [sand / "real", ("link", sand / "lnk", "real")]
+    if how == "symlink_abs":
+        return str(sand / "lnk" / "out"), sand / "real" / "out", [sand / "real", ("link", sand / "lnk", "real")]
     raise ValueError(how)
 
 
 def relcomps(p, cwd, top):
-    """components of path p (as the tool spelled it, relative ones against cwd) relative to directory `top`"""
-    absn = os.path.normpath(os.path.join(str(cwd), str(p)))
-    rel = os.path.relpath(absn, str(top))
+    """components of the location path p denotes (as the tool spelled it: relative ones against cwd, `..` and symbolic links resolved)
+    relative to directory `top`"""
+    absn = os.path.realpath(os.path.join(str(cwd), str(p)))
+    rel = os.path.relpath(absn, os.path.realpath(str(top)))
     return [] if rel == "." else rel.split(os.sep)
 
 
@@ -220,7 +225,8 @@ def user_templates(base):
     if USER_TPL is None:
         USER_TPL = base / "tpl"
         USER_TPL.mkdir(exist_ok=True)
-        (USER_TPL / "Any.j2").write_text("{{ T.full_name }}\n")
+        # a user template that asks the generator, for every type and namespace, where its output is (public filter type_to_include_path)
+        (USER_TPL / "Any.j2").write_text("{{ T.full_name }}\nINC:{{ T | type_to_include_path }}\n")
     return USER_TPL
 
 
@@ -248,7 +254,10 @@ def do_run(base, job, jdir, dsdl_root, by_key, run):
     sand.mkdir()
     spelled, true_out, pre = spell(sand, run.get("spell", "rel"))
     for d in pre:
-        d.mkdir()
+        if isinstance(d, tuple):
+            os.symlink(d[2], str(d[1]))
+        else:
+            d.mkdir()
     os.chdir(str(sand))
     before = snapshot(sand)
     types = job["types"]
@@ -275,8 +284,9 @@ def do_run(base, job, jdir, dsdl_root, by_key, run):
             err = "filter_id(%r): %r" % (n, e)
     rec = {"id": run["rid"], "types": [{"ns": pcomps(t["ns"]), "short": cps(t["short"]), "maj": t["maj"], "min": t["min"]} for t in types],
            "strop": strop, "ext": cps(ext), "nodes": [], "pobs": True, "root": 0, "walk_types": [], "walk_ns": [], "walk_any": [], "find": [],
-           "generated": False, "outdir": pcomps(relcomps(true_out, sand, sand)), "created": [], "other": [], "refs": []}
-    obs = {"root": None, "nodes": [], "tpaths": [[] for _ in types], "nfiles": None}
+           "generated": False, "outdir": pcomps(relcomps(true_out, sand, sand)), "created": [], "other": [], "refs": [],
+           "given": pcomps(pathlib.PurePath(spelled).parts), "denote": []}
+    obs = {"root": None, "nodes": [], "tpaths": [[] for _ in types], "nfiles": None, "as_given": None}
     gen_mode = run.get("gen", "none")
     gen_ns_req = run.get("gen_ns")
     root_ns = None
@@ -326,6 +336,16 @@ def do_run(base, job, jdir, dsdl_root, by_key, run):
             def rc(p):
                 return relcomps(p, sand, true_out)
 
+            def raw(p):
+                return list(pathlib.PurePath(str(p)).parts)
+
+            def strip(p, k):
+                return p[:len(p) - k] if 0 <= k <= len(p) else []
+
+            nsfile = {}
+            for x, p in root_ns.get_all_namespaces():
+                nsfile.setdefault(id(x), raw(p))
+            bases = []
             missing = object()
             for n in nodes:
                 par = getattr(n, "_parent", missing)
@@ -338,11 +358,25 @@ def do_run(base, job, jdir, dsdl_root, by_key, run):
                 nt_items = list(n.get_nested_types())
                 ntypes = [tindex(t) for t, _ in nt_items]
                 npaths = [rc(p) for _, p in nt_items]
-                rec["nodes"].append({"dsdl": pcomps(dsdl_of(n)), "parent": pidx, "kids": kids, "types": ntypes, "paths": [pcomps(p) for p in npaths],
-                                     "up": idx.get(id(n.get_root_namespace()), unknown)})
+                dn_ = dsdl_of(n)
+                try:
+                    rfind = raw(root_ns.find_output_path_for_type(n))
+                except Exception:
+                    rfind = []
+                rdir, rout, rpaths = raw(n.output_folder), nsfile.get(id(n), []), [raw(p) for _, p in nt_items]
+                for b in [strip(rdir, len(dn_)), strip(rout, len(dn_) + 1), strip(rfind, len(dn_) + 1)] + [strip(rp, len(q)) for rp, q in zip(rpaths, npaths)]:
+                    if b not in bases:
+                        bases.append(b)
+                rec["nodes"].append({"dsdl": pcomps(dn_), "parent": pidx, "kids": kids, "types": ntypes, "paths": [pcomps(p) for p in npaths],
+                                     "up": idx.get(id(n.get_root_namespace()), unknown),
+                                     "rdir": pcomps(rdir), "rout": pcomps(rout), "rfind": pcomps(rfind), "rpaths": [pcomps(p) for p in rpaths]})
                 for ti, p in zip(ntypes, npaths):
                     if ti and not obs["tpaths"][ti - 1]:
                         obs["tpaths"][ti - 1] = p
+            tloc = os.path.realpath(str(true_out))
+            for b in bases:
+                rec["denote"].append({"b": pcomps(b), "ok": bool(b) and os.path.realpath(os.path.join(str(sand), *b)) == tloc})
+            obs["as_given"] = bases == [list(pathlib.PurePath(spelled).parts)]
             rec["root"] = 1
             rec["walk_types"] = [tindex(t) for t, _ in root_ns.get_all_datatypes()]
             rec["walk_ns"] = [idx.get(id(n), unknown) for n, _ in root_ns.get_all_namespaces()]
@@ -422,6 +456,16 @@ def do_run(base, job, jdir, dsdl_root, by_key, run):
                     rec["refs"].append({"deps": sorted({d + 1 for d in t["deps"]}), "incs": [pcomps(i) for i in incs], "how": how})
         except Exception as e:
             err = "refs: %r" % (e,)
+    # ---- ... what the generator itself answers when a user template asks for a type's include path ...
+    if rec["generated"] and gen_mode == "user" and err is None:
+        try:
+            for i, t in enumerate(types):
+                f = tfile.get(type_key(t))
+                if f is not None and f.is_file():
+                    m = re.search(r"^INC:(.*)$", f.read_text(), re.M)
+                    rec["refs"].append({"deps": [i + 1], "incs": [pcomps(m.group(1).split("/"))] if m else [], "how": "path"})
+        except Exception as e:
+            err = "user template refs: %r" % (e,)
     # ---- ... and from another root namespace that only looks the types up
     if run.get("xref") and root_ns is not None and lang != "html" and err is None:
         try:
@@ -563,7 +607,7 @@ def is_folded(rec):
 
 
 CLAUSES = ["tree.inside_outdir", "tree.type_once", "tree.ancestors", "tree.links", "tree.path_total", "tree.path_shape", "tree.injective",
-           "tree.one_file", "tree.ref_eq_gen"]
+           "tree.one_file", "tree.ref_eq_gen", "tree.as_given"]
 
 
 def failed_clauses(verdict):
@@ -580,7 +624,7 @@ def signature(clauses, job, run, res):
     if res.get("err"):
         cls += ",exception"
     extra = ""
-    if first in ("tree.inside_outdir", "tree.one_file"):
+    if first in ("tree.inside_outdir", "tree.one_file", "tree.as_given"):
         extra = "|" + run.get("spell", "rel")
     return "C11|%s|%s|%s%s" % (first, run["lang"], cls, extra)
 
@@ -613,11 +657,12 @@ def judge(ctx, jobs, results):
 
 
 TRACE_CONSTANTS = {"Roots": "{}", "Names": "{}", "Shorts": "{}", "TwoVer": "{}", "MaxDepth": "0", "MaxTypes": "0", "StropMode": '"none"',
-                   "GenNsChoices": "{}"}
+                   "GenNsChoices": "{}", "Spellings": "{}", "CanonNs": "FALSE"}
 
 
 EMIT_CFGS = {
-    "prefix": (["NamespaceTree_emit_prefix", "NamespaceTree_emit_prefix3"], ["NamespaceTree_emit_prefix", "NamespaceTree_emit_prefix_big"]),
+    "prefix": (["NamespaceTree_emit_spell", "NamespaceTree_emit_prefix", "NamespaceTree_emit_prefix3"],
+               ["NamespaceTree_emit_spell", "NamespaceTree_emit_prefix", "NamespaceTree_emit_prefix_big"]),
     "suffix": (["NamespaceTree_emit_suffix", "NamespaceTree_emit_suffix3"], ["NamespaceTree_emit_suffix", "NamespaceTree_emit_suffix_big"]),
     "none": (["NamespaceTree_emit_none"], ["NamespaceTree_emit_none_big"]),
 }
@@ -628,11 +673,11 @@ def predicted(case, ext):
     tp = []
     for d, s in zip(case["tdirs"], case["tstems"]):
         tp.append((to_parts(d) + [to_s(s) + ext]) if d else [])
-    return {"root": to_parts(case["root"]), "nodes": nodes, "tpaths": tp, "nfiles": case["nfiles"]}
+    return {"root": to_parts(case["root"]), "nodes": nodes, "tpaths": tp, "nfiles": case["nfiles"], "as_given": case["as_given"]}
 
 
 def differs(pred, obs, generated):
-    for k in ("root", "nodes", "tpaths"):
+    for k in ("root", "nodes", "tpaths", "as_given"):
         if pred[k] != obs[k]:
             return k
     if generated and obs["nfiles"] is not None and pred["nfiles"] != obs["nfiles"]:
@@ -734,6 +779,9 @@ def run(ctx):
                     constants="prefix stropping; Names={a,if,_if} Shorts={t}+t.1.1 MaxDepth=2 MaxTypes=3", timeout=3000, xmx="4g")
     tlc.check_model(ctx, "NamespaceTree", "NamespaceTree_suffix",
                     constants="suffix stropping; Roots={r,if} Names={if,if_} Shorts={t,if}+t.1.1 MaxDepth=2 MaxTypes=2 genNs both", timeout=3000, xmx="4g")
+    tlc.check_model(ctx, "NamespaceTree", "NamespaceTree_spell",
+                    constants="output directory spelled {abs, rel, slash, dot, dotdot, symlink}; Roots={r,if} Names={a,if} MaxDepth=2 MaxTypes=2 genNs both",
+                    timeout=3000, xmx="4g")
     if not ctx.quick:
         tlc.check_model(ctx, "NamespaceTree", "NamespaceTree_big", constants="prefix; Names={a,if,_if} Shorts={t,if}+t.1.1 MaxDepth=2 MaxTypes=3", timeout=3000)
         tlc.check_model(ctx, "NamespaceTree", "NamespaceTree_deep", constants="prefix; Names={a,if} Shorts={t}+t.1.1 MaxDepth=3 MaxTypes=3", timeout=3000)
@@ -745,6 +793,13 @@ def run(ctx):
         raise MachineryFailure("negative control: folding inputs were not refuted under the unconditional property (%s %s)" % (neg.error, neg.violated))
     ctx.cov["model_negative_control"] = "invariant RefinesNoFold (property without the folding exception) refuted after %d states" % neg.distinct
 
+    # second negative control: a Namespace that canonicalises (resolves) its own paths while type paths keep the caller's spelling must be refuted
+    neg2 = tlc.run_tlc(tlc.SPECS / "NamespaceTree.tla", tlc.SPECS / "NamespaceTree_negcanon.cfg", ctx.scratch, workers=2, xmx="2g")
+    if neg2.violated != "Refines":
+        raise MachineryFailure("negative control: a model that canonicalises namespace paths only was not refuted (%s %s)" % (neg2.error, neg2.violated))
+    ctx.cov["model_negative_control_2"] = ("CanonNs=TRUE (namespace paths resolved, type paths as given) refuted by invariant Refines / clause tree.as_given "
+                                           "after %d states" % neg2.distinct)
+
     # ---- 2. spec -> code: every terminal state of the model replayed through the real code
     rng = ctx.rng
     jobs, rid = [], 0
@@ -753,7 +808,10 @@ def run(ctx):
     for mode in ("prefix", "suffix", "none"):
         cases = []
         for cfgname in EMIT_CFGS[mode][0 if ctx.quick else 1]:
-            cases += tlc.emit_cases(ctx, "NamespaceTree", cfgname, name=cfgname, constants="emission, StropMode=%s" % mode, xmx="3g")
+            got = tlc.emit_cases(ctx, "NamespaceTree", cfgname, name=cfgname, constants="emission, StropMode=%s" % mode, xmx="3g")
+            for c in got:  # only the spelling configuration enumerates spellings; elsewhere the driver rotates them
+                c["_spell"] = c["spell"] if cfgname.endswith("_spell") else None
+            cases += got
         if len(cases) < 300:
             raise MachineryFailure("too few cases emitted for mode %s: %d" % (mode, len(cases)))
         ncases += len(cases)
@@ -777,15 +835,17 @@ def run(ctx):
                 for i, x in enumerate(p["tpaths"]):
                     tp[order[i]] = x
                 p["tpaths"] = tp
-                byorder.setdefault((order, c["gen_ns"]), []).append(p)
-            for k, ((order, gen_ns), ps) in enumerate(sorted(byorder.items())):
+                byorder.setdefault((order, c["gen_ns"], c["_spell"] or ""), []).append(p)
+            for k, ((order, gen_ns, mspell), ps) in enumerate(sorted(byorder.items())):
                 lang = langs[(gi + k) % len(langs)]
                 sel = (gi * 3 + k) % 8
                 gen = "builtin" if sel == 4 else ("user" if sel in (0, 2) else "none")
+                if mspell:  # the spelling cases: every other one generates with the user template that calls type_to_include_path
+                    gen = "user" if sel % 2 == 0 else "none"
                 if lang in ("c", "cpp") and gen_ns and gen == "builtin":
                     gen = "user"  # c / c++ have no built-in namespace template
                 run = {"rid": rid, "order": list(order), "lang": lang, "ext": EXTS[lang][1] if sel == 2 else None, "stem": None,
-                       "spell": SPELLINGS[(gi + k) % len(SPELLINGS)], "gen": gen, "gen_ns": gen_ns, "support": False,
+                       "spell": mspell or SPELLINGS[(gi + k) % len(SPELLINGS)], "gen": gen, "gen_ns": gen_ns, "support": False,
                        "xref": gen == "builtin", "via": "api"}
                 job["runs"].append(run)
                 pred[rid] = ps
@@ -927,6 +987,15 @@ def run(ctx):
     m = json.loads(json.dumps(good)); m["id"] = 6
     m["find"][len(m["find"]) - 1][0] = []
     muts.append(("a failed path lookup", m, "tree.path_total"))
+    m = json.loads(json.dumps(good)); m["id"] = 9
+    for x in m["nodes"]:  # namespaces spelled differently from the types (an absolute spelling that denotes the same directory)
+        canon = pcomps(["/", "elsewhere"])
+        k = len(x["dsdl"])
+        x["rdir"] = canon + x["rdir"][len(x["rdir"]) - k:]
+        x["rout"] = canon + x["rout"][len(x["rout"]) - k - 1:]
+        x["rfind"] = list(x["rout"])
+    m["denote"].append({"b": pcomps(["/", "elsewhere"]), "ok": True})
+    muts.append(("namespace paths canonicalised while type paths keep the caller's spelling", m, "tree.as_given"))
     m8 = json.loads(json.dumps(good)); m8["id"] = 8
     m8["nodes"] = m8["nodes"][:1]; m8["nodes"][0]["kids"] = []; m8["find"] = m8["find"][:1]; m8["walk_ns"] = [1]; m8["walk_types"] = []; m8["walk_any"] = []
     m8["created"].append({"p": pcomps(["stray.txt"]), "d": False})
